@@ -107,7 +107,8 @@ func (u *Unit) bindParam(st *State, names map[string]*Val, id *ast.Ident) {
 		return
 	}
 	v := u.freshVal(st, obj.Type(), id.Name)
-	if kindOf(obj.Type()) == kRef {
+	if kindOf(obj.Type()) == kRef || isIface(obj.Type()) {
+		// what a parameter refers to exists at entry (for an interface value: the object it holds)
 		st.assumeFact(app("<=", v.S, st.wm))
 	}
 	if (kindOf(obj.Type()) == kSlice || kindOf(obj.Type()) == kArray) && kindOf(elemType(obj.Type())) == kRef && v.Arr != "" {
